@@ -338,6 +338,30 @@ impl Real {
                 }
                 self.o(echo);
             }
+            ["pub", fid] => {
+                // make the file openable read-write by everybody (and its directories searchable
+                // and writable), so that an unprivileged caller (`euid`) can open it although it
+                // does not own it
+                let Some(p) = num(fid).filter(|f| *f < FID_ETC).and_then(|f| self.path(f)) else { return self.o(echo) };
+                let _ = std::fs::set_permissions(&p, std::fs::Permissions::from_mode(0o666));
+                if let Some(d) = p.parent() {
+                    let _ = std::fs::set_permissions(d, std::fs::Permissions::from_mode(0o777));
+                }
+                for d in [&self.root_dir, &self.shm_dir] {
+                    let _ = std::fs::set_permissions(d, std::fs::Permissions::from_mode(0o777));
+                }
+                self.o(echo);
+            }
+            ["euid", uid] => {
+                // switch the EFFECTIVE user id (the saved id stays 0, so `euid 0` switches back):
+                // with a non-zero effective uid the process has no CAP_FOWNER, and touching the
+                // timestamps of a file it does not own fails with EPERM - the only way a
+                // registration can fail AFTER its path was opened.  Not running as root: no-op.
+                let Some(uid) = num(uid).filter(|u| *u == 0 || *u == 65534) else { return self.o(echo) };
+                let rc = unsafe { libc::seteuid(uid as libc::uid_t) };
+                self.t(if rc == 0 { "euid_ok" } else { "euid_failed" });
+                self.o(echo);
+            }
             ["sleep", ms] => {
                 let Some(ms) = num(ms).filter(|m| *m <= 5000) else { return self.o(echo) };
                 std::thread::sleep(Duration::from_millis(ms));
@@ -598,6 +622,9 @@ fn child_main(input: BufReader<std::fs::File>, mut output: std::fs::File, parent
             break;
         }
     }
+    unsafe {
+        libc::seteuid(0);
+    }
     for d in &real.dirs {
         let _ = std::fs::remove_dir_all(d);
     }
@@ -620,6 +647,11 @@ impl Family for NfsFamily {
 
     fn enumerated(&self, thorough: bool) -> Vec<Vec<String>> {
         let mut cases = vec![
+            // a registration that fails AFTER its path was opened (unprivileged caller, file owned by
+            // somebody else: the timestamp touch gets EPERM) must establish no trust
+            ops(&["mk 1 shm", "mk 2 shm", "mk 3 root", "pub 1", "pub 2", "pub 3", "sleep 15", "euid 65534", "add 1", "obs 1", "obs 2", "mobs 2 wait",
+                  "scan wait", "add 3", "obs 3", "unl", "euid 0", "obs 2", "add 2", "obs 1", "unl"]),
+            ops(&["mk 1 root", "pub 1", "euid 65534", "add 1", "euid 0", "obs 1", "mk 2 root", "sleep 15", "obs 2", "add 2", "obs 1", "unl"]),
             // nothing trusted yet: every observation is a no-op, nothing refreshes
             ops(&["unl", "mk 1 root", "mk 2 shm", "obs 1", "obs 2", "obs 90", "obs 91", "mobs 1 wait", "mobs 2 prime",
                   "scan wait", "scan prime", "get 0 0", "get 5000 1", "sr - 5000", "sr 0 1", "unl"]),
